@@ -19,15 +19,26 @@ def jobs(tier):
             bounds="ndims=%d; all values in [-2^%d,2^%d) symbolic" % (nd, box, box), **dict(common, findings=[])))
     consts = ["1", "2", "3", "(1LL<<31)", "(1LL<<32)", "(1LL<<62)", "INT64_MAX", "0", "(-1LL)", "INT64_MIN"]
     for nd in ([1, 2] if tier == "quick" else [1, 2, 3]):
-        for k, c in enumerate(consts if (nd == 1 or tier != "quick") else consts[:6:5]):
+        for k, c in enumerate(consts if (nd == 1 or tier != "quick") else [consts[0], consts[5]]):
             out.append(Job(
                 oid="C15.a.scs.wide.nd%d.stride%d" % (nd, k), defines=["-DND=%d" % nd, "-DSTRIDE_LAST=" + c, "-DCOVER_STRIDED=%d" % (1 if 1 <= consts.index(c) <= 6 else 0)], unwind=nd + 1,
                 timeout=1700,
                 desc="same obligation with start,count,shape,numrecs FULL 64-bit symbolic; stride of the last dimension = %s, "
-                     "of the other dimensions in {1,2,3}; %d-D" % (c, nd),
+                     "of the other dimensions = 1; %d-D" % (c, nd),
                 bounds="ndims=%d; start,count,shape,numrecs full 64-bit; last stride %s" % (nd, c), **common))
     return out
 
 
 LEVEL = "bounded model checking of the real request checker over all 64-bit argument tuples"
 ASSUMPTIONS = []
+
+MANIFEST = dict(
+    text="CBMC decides the real request checker check_start_count_stride/check_EINVALCOORDS/check_EEDGE (static functions of the "
+         "m4-generated var_getput.c, included textually) against a 128-bit reference of 'the request fits the current shape' and the "
+         "documented error precedence: (i) every (start,count,stride,shape,numrecs) tuple in [-2^10,2^10) fully symbolic, 1-2 (3) "
+         "dimensions, fixed/record, read/write, strict/relaxed, CDF-2/5, var1/vara/vars/varm; (ii) start,count,shape,numrecs FULL "
+         "64-bit with the last stride from {1,2,3,2^31,2^32,2^62,INT64_MAX,0,-1,INT64_MIN}. The 64-bit extremes (wrap-around) are "
+         "exactly what the tests cannot enumerate.",
+    note="Bounds: ndims<=2 quick/3 thorough; in the wide jobs the other dimensions have stride 1. Assumes dimension lengths >= 0 and "
+         "numrecs <= 2^32-1 for CDF-1/2. Write-containment of accepted requests (filetype offsets) is covered under C01/C18 obligations "
+         "when present; varn/nonblocking entry points call the same checker (call-order obligations are thorough-tier).")
